@@ -624,7 +624,29 @@ pub fn run_property<P: Prop>(tier: Tier, seed: u64) -> Outcome {
     if let Some(fi) = &fail {
         let name = format!("{}-{}-seed{}-w{}.json", P::ID, tier.name(), seed, fi.worker);
         let path = write_replay::<P>(&name, seed, tier, &fi.reason, &fi.case);
-        violations.push((path.display().to_string(), fi.reason.clone()));
+        let mut reason = fi.reason.clone();
+        // Does the case fail on its own? A failure that needs the evaluations that came before it in the same
+        // process (a cache or static keyed by too little) passes when the case is evaluated alone: then the
+        // reproducible unit is the worker's sequence, which is a pure function of code, seed and tier, and the
+        // replay file says so (`vcheck replay` then re-runs that sequence).
+        if let Ok(exe) = std::env::current_exe() {
+            if let Ok(out) = std::process::Command::new(exe).arg("replay").arg(&path).env("VERIF_REPLAY_PLAIN", "1").output() {
+                if out.status.code() == Some(0) {
+                    let total = std::env::var("VERIF_CASES").ok().and_then(|s| s.parse::<u32>().ok()).unwrap_or_else(|| P::cases(tier)).max(WORKERS as u32);
+                    let per_worker = (total + WORKERS as u32 - 1) / WORKERS as u32;
+                    if let Ok(txt) = std::fs::read_to_string(&path) {
+                        if let Ok(mut doc) = serde_json::from_str::<Value>(&txt) {
+                            doc["history"] = json!({"worker": fi.worker, "per_worker": per_worker, "seed": seed, "tier": tier.name(),
+                                "note": "the case passes when evaluated alone in a fresh process; the failure needs the evaluations that precede it in the worker's sequence"});
+                            let _ = std::fs::write(&path, serde_json::to_string_pretty(&doc).unwrap());
+                        }
+                    }
+                    reason = format!("{} [history-dependent: the shrunk case passes when evaluated alone in a fresh process - state survives between evaluations in one process; the replay file re-runs the worker's sequence]", reason);
+                    eprintln!("note: the failing case passes on its own in a fresh process: the failure depends on earlier evaluations");
+                }
+            }
+        }
+        violations.push((path.display().to_string(), reason));
     }
     for (id, (n, what)) in &stats.kf_hits {
         let e = kf_seen.entry(id.clone()).or_insert((0, what.clone()));
@@ -743,6 +765,30 @@ pub fn replay_cmd<P: Prop>(path: &Path) -> Outcome {
         Ok(ctx) => {
             for (id, what) in &ctx.kf_hits {
                 println!("KNOWN-FINDING: property={} {}: {}", P::ID, id, what);
+            }
+            // a history-dependent failure: re-run the worker's sequence (pure function of code, seed and tier)
+            let hist = std::fs::read_to_string(path).ok().and_then(|t| serde_json::from_str::<Value>(&t).ok()).and_then(|v| v.get("history").cloned());
+            if let (Some(h), Err(_)) = (hist, std::env::var("VERIF_REPLAY_PLAIN")) {
+                let w = h.get("worker").and_then(|x| x.as_u64()).unwrap_or(0) as usize;
+                let per_worker = h.get("per_worker").and_then(|x| x.as_u64()).unwrap_or(1) as u32;
+                let seed = h.get("seed").and_then(|x| x.as_u64()).unwrap_or(0);
+                let tier = if h.get("tier").and_then(|x| x.as_str()) == Some("thorough") { Tier::Thorough } else { Tier::Quick };
+                let res = std::thread::scope(|sc| {
+                    std::thread::Builder::new()
+                        .stack_size(64 << 20)
+                        .spawn_scoped(sc, || run_worker::<P>(tier, seed, w, per_worker, false, &active).1)
+                        .expect("spawn replay worker")
+                        .join()
+                        .ok()
+                        .flatten()
+                });
+                if let Some((_, reason)) = res {
+                    eprintln!("failure: {} [reproduced by re-running the sequence of worker {}]", reason, w);
+                    println!("VIOLATION property={} replay={}", P::ID, path.display());
+                    return Outcome { exit: 1 };
+                }
+                println!("OK property={} replay={} (case passes, and so does the recorded sequence)", P::ID, path.display());
+                return Outcome { exit: 0 };
             }
             println!("OK property={} replay={} (case passes)", P::ID, path.display());
             Outcome { exit: 0 }
